@@ -405,7 +405,23 @@ fn main() {
             };
             runner.summary.set("scenarios", s.name);
             (s.run)(s.name, &env, &mut runner);
+            // a broken tree fails again and again (and every lost wake-up costs its bound):
+            // a few witnesses are enough
+            if runner.summary.violations.len() >= 4 {
+                runner.summary.count("stopped_after_violations", 1);
+                break 'outer;
+            }
         }
+    }
+    // evidence: number of distinct interleavings (event orders) this process witnessed; the list
+    // of hashes itself is capped so that the summary line stays small
+    let distinct = runner.summary.signatures.len() as u64;
+    runner.summary.count("distinct_interleavings_in_process", distinct);
+    if distinct > 2048 {
+        let keep: std::collections::BTreeSet<u64> =
+            runner.summary.signatures.iter().copied().take(2048).collect();
+        runner.summary.signatures = keep;
+        runner.summary.count("signatures_truncated", distinct - 2048);
     }
     if runner.summary.evaluations == 0 {
         runner
